@@ -237,6 +237,7 @@ class MissingFields(JSONWizardError):
         if missing_fields:
             self.fields = [f.name for f in cls_fields
                            if f.name not in missing_fields
+                           and f.init
                            and f.default is MISSING
                            and f.default_factory is MISSING]
             self.missing_fields = missing_fields
@@ -244,6 +245,7 @@ class MissingFields(JSONWizardError):
             self.fields = list(cls_kwargs.keys())
             self.missing_fields = [f.name for f in cls_fields
                                    if f.name not in self.fields
+                                   and f.init
                                    and f.default is MISSING
                                    and f.default_factory is MISSING]
 
